@@ -1,26 +1,95 @@
 ------------------------------ MODULE ErrorMap ------------------------------
 (* Errors through the generated HTTP transport (property C05).
 
-   A method has a table of declared errors (from the method, its service or the API), each with the status
-   the design assigns, a type (the built-in ErrorResult or a user defined type) and possibly a status shared
-   with another error (told apart by the goa-error header).  The service method returns a declared error, a
-   wrapped declared error, an undeclared goa ServiceError with some flags, or a plain Go error; or the
-   request does not even decode.  The server writes exactly one response; the client maps it back. *)
+   A method has a table of declared errors, in declaration ORDER.  Each error is declared (Error(name, ...)) at
+   one or more levels - the method, its service, the API - and its HTTP response (Response(name, status)) is
+   written in one or more HTTP expressions - the method's, the service's, the API's; the most specific
+   response is the one the design assigns (less specific ones carry the Decoy status).  Each error has a type
+   (the built-in ErrorResult or a user defined type), possibly declared flags and possibly a status shared
+   with another error (told apart by the goa-error header).
+
+   The endpoint's error responses are resolved the way HTTPEndpointExpr.Prepare does it (Source): the method's
+   own responses, then for every method level error the service's responses and only then the API's, then the
+   same for the service level errors.
+
+   The service method is called once per declared error (returning it, possibly wrapped), then once more with
+   an undeclared goa ServiceError with some flags, a plain Go error, or a request that does not even decode.
+   The server writes exactly one response per call; the client maps it back. *)
 EXTENDS Integers, Sequences, FiniteSets, TLC
 
-CONSTANTS Deviations
+CONSTANTS Deviations,
+          Spaces,      \* which table spaces Init offers: "base", "place1", "pair", "pairq" (exhaustive), "triple" (grown by Declare: simulate)
+          Seed         \* rotates the members of "pairq"
+ASSUME Seed \in 0..10000
 
-Names == {"e1", "e2", "e3"}
+Names == <<"e1", "e2", "e3">>
 Levels == {"method", "service", "api"}
 Types == {"result", "custom"}                \* ErrorResult | user type with attributes (and a GoaErrorName)
 Statuses == {400, 404, 409}
+Decoy == 422                                 \* status of a response shadowed by a more specific one
 FlagRec == [t: BOOLEAN, tmp: BOOLEAN, f: BOOLEAN]
 NoFlags == [t |-> FALSE, tmp |-> FALSE, f |-> FALSE]
+DeclFlags == {NoFlags, [t |-> TRUE, tmp |-> TRUE, f |-> FALSE], [t |-> FALSE, tmp |-> FALSE, f |-> TRUE]}
 
-Decl(n, l, ty, st, fl) == [name |-> n, level |-> l, type |-> ty, status |-> st, flags |-> fl]
+Innermost(S) == IF "method" \in S THEN "method" ELSE IF "service" \in S THEN "service" ELSE "api"
+
+\* an error of the table: `level` = innermost declaration level (kept for readers of the base space),
+\* `status` = status of the innermost response
+Entry(n, d, mp, ty, st, fl) ==
+  [name |-> n, decl |-> d, maps |-> mp, level |-> Innermost(d), type |-> ty, status |-> st, flags |-> fl]
+
+\* What the DSL accepts (checked on the unchanged tree: anything else is refused by eval with "Error .. does
+\* not match an error defined in the service / API"): a service level response needs the error declared in the
+\* service or the API, an API level response needs it declared in the API.
+Accepted(d, mp) == /\ ("service" \in mp => d \cap {"service", "api"} # {})
+                   /\ ("api" \in mp => "api" \in d)
+\* The error belongs to the method: declared by the method or its service, or an API level definition the
+\* method's own HTTP expression maps (an API level Error alone is only a reusable definition).
+OfMethod(d, mp) == d \cap {"method", "service"} # {} \/ "method" \in mp
+NonEmpty(S) == SUBSET S \ {{}}
+Placements == {p \in [decl : NonEmpty(Levels), maps : NonEmpty(Levels)] : Accepted(p.decl, p.maps) /\ OfMethod(p.decl, p.maps)}   \* 32
+
+\* ---- base space: every error declared at one level, all responses in the method's HTTP expression;
 \* declared flags (Temporary()/Timeout()/Fault() in the Error DSL) only exist for ErrorResult errors
-DeclSpace(n) == {Decl(n, l, "result", st, fl) : l \in Levels, st \in Statuses, fl \in {NoFlags, [t |-> TRUE, tmp |-> TRUE, f |-> FALSE], [t |-> FALSE, tmp |-> FALSE, f |-> TRUE]}}
+Decl(n, l, ty, st, fl) == Entry(n, {l}, {"method"}, ty, st, fl)
+DeclSpace(n) == {Decl(n, l, "result", st, fl) : l \in Levels, st \in Statuses, fl \in DeclFlags}
                 \cup {Decl(n, l, "custom", st, NoFlags) : l \in Levels, st \in Statuses}
+BaseTables ==
+  UNION {{<<a>> : a \in DeclSpace("e1")},
+         {<<a, b>> : a \in DeclSpace("e1"), b \in {x \in DeclSpace("e2") : x.level = "method"}},
+         {<<a, b, c>> : a \in {x \in DeclSpace("e1") : x.level = "method" /\ x.type = "result" /\ x.flags = NoFlags},
+                        b \in {x \in DeclSpace("e2") : x.level = "service" /\ x.flags = NoFlags},
+                        c \in {x \in DeclSpace("e3") : x.level = "api" /\ x.type = "result" /\ x.flags = NoFlags}}}
+
+\* ---- placement spaces: every accepted (declaration levels, response levels) combination per error.
+\* (A user type error declared at the API level only does not compile - C01, codegen.api_error_user_type -
+\* and stays in the base space.)
+Placed(n, ty, st, fl) == {Entry(n, p.decl, p.maps, ty, st, fl) : p \in {q \in Placements : ty = "custom" => q.decl # {"api"}}}
+PlacedPlain(n, st) == Placed(n, "result", st, NoFlags) \cup Placed(n, "custom", st, NoFlags)
+Place1Tables == {<<a>> : a \in PlacedPlain("e1", 404)}
+\* all ordered pairs, on one status or on two
+PairTables == {<<a, b>> : a \in PlacedPlain("e1", 404), b \in PlacedPlain("e2", 404) \cup PlacedPlain("e2", 409)}
+\* ---- "pairq": one pair per ordered pair of resolution paths, the members rotated by Seed (the quick tier's cut
+\* of the pair space; the whole pair space is still model-checked)
+SetSeq == <<{"method"}, {"service"}, {"api"}, {"method", "service"}, {"method", "api"}, {"service", "api"}, {"method", "service", "api"}>>
+PlacementSeq == LET all == [k \in 1..49 |-> [decl |-> SetSeq[((k - 1) \div 7) + 1], maps |-> SetSeq[((k - 1) % 7) + 1]]]
+                    ok(p) == p \in Placements
+                IN SelectSeq(all, ok)
+\* the path an error of this placement takes through the resolution (= Path(i) when nothing deviates)
+PClass(d, mp) == <<IF "method" \in d THEN "M" ELSE IF "service" \in d THEN "S" ELSE "A",
+                   IF "method" \in mp THEN "method" ELSE IF "service" \in mp THEN "service" ELSE IF "service" \in d THEN "copied" ELSE "api">>
+ClassSeq == <<<<"M", "method">>, <<"M", "service">>, <<"M", "copied">>, <<"M", "api">>,
+              <<"S", "method">>, <<"S", "service">>, <<"S", "copied">>, <<"A", "method">>>>
+Members(c, n, st) ==      \* the plain errors of path c, ErrorResult ones first
+  LET mk(ty) == [k \in 1..Len(PlacementSeq) |-> Entry(n, PlacementSeq[k].decl, PlacementSeq[k].maps, ty, st, NoFlags)]
+      ok(e) == PClass(e.decl, e.maps) = c /\ (e.type = "custom" => e.decl # {"api"})
+  IN SelectSeq(mk("result") \o mk("custom"), ok)
+Pick(c, n, st, k) == LET ms == Members(c, n, st) IN ms[(k % Len(ms)) + 1]
+PairQTables == {<<Pick(ClassSeq[i], "e1", 404, Seed + 3 * i + 5 * j),
+                  Pick(ClassSeq[j], "e2", IF (Seed + i + j) % 2 = 0 THEN 404 ELSE 409, (Seed \div 3) + 5 * i + 3 * j)>> : i \in 1..Len(ClassSeq), j \in 1..Len(ClassSeq)}
+
+\* the errors a table of the "triple" space is grown from
+Grown(n) == (UNION {Placed(n, "result", st, fl) : st \in Statuses, fl \in DeclFlags}) \cup (UNION {Placed(n, "custom", st, NoFlags) : st \in Statuses})
 
 \* default status of an undeclared service error (same table as ErrorAlgebra!HTTPStatus)
 DefaultStatus(name, fl) ==
@@ -31,42 +100,97 @@ DefaultStatus(name, fl) ==
   ELSE 400
 
 \* what the service method does / what is wrong with the request
-Outcomes ==
-  [kind: {"declared", "wrapped"}, name: Names, flags: {NoFlags}]
-  \cup [kind: {"service", "joined"}, name: {"zz"}, flags: FlagRec]      \* joined: errors.Join(plain, serviceError)
+Undeclared ==
+  [kind: {"service", "joined"}, name: {"zz"}, flags: FlagRec]      \* joined: errors.Join(plain, serviceError)
   \cup [kind: {"plain"}, name: {"-"}, flags: {NoFlags}]
   \cup [kind: {"decode"}, name: {"missing_body", "malformed_body", "bad_param", "bad_media_type"}, flags: {NoFlags}]
+UndeclaredFew ==
+  {[kind |-> "service", name |-> "zz", flags |-> NoFlags], [kind |-> "plain", name |-> "-", flags |-> NoFlags],
+   [kind |-> "decode", name |-> "missing_body", flags |-> NoFlags]}
+\* only service errors are wrapped (fmt.Errorf("%w", MakeE1(...)))
+Returning(e) == {[kind |-> k, name |-> e.name, flags |-> NoFlags] : k \in IF e.type = "result" THEN {"declared", "wrapped"} ELSE {"declared"}}
+NoOutcome == [kind |-> "none", name |-> "-", flags |-> NoFlags]
 
-VARIABLES table,     \* sequence of declared errors (distinct names)
+VARIABLES space,     \* the table space this behaviour explores
+          table,     \* sequence of declared errors (distinct names) in declaration order
+          callno,    \* calls made so far
           outcome, pc,
           status, goaerr, bodyname, bodyflags, writes,      \* the response on the wire
           cname, cflags, ckind                               \* what the client caller gets: error name, flags, "declared" | "generic"
-vars == <<table, outcome, pc, status, goaerr, bodyname, bodyflags, writes, cname, cflags, ckind>>
+vars == <<space, table, callno, outcome, pc, status, goaerr, bodyname, bodyflags, writes, cname, cflags, ckind>>
 
 Find(n) == {i \in 1..Len(table) : table[i].name = n}
 Declared(n) == Find(n) # {}
-Entry(n) == table[CHOOSE i \in Find(n) : TRUE]
+Idx(n) == CHOOSE i \in Find(n) : TRUE
+Entry_(n) == table[Idx(n)]
+
+\* ---- resolution of the endpoint's error responses (HTTPServiceExpr.Prepare, then HTTPEndpointExpr.Prepare)
+\* HTTPServiceExpr.Prepare runs first: a service level error without a service level response gets a copy of the API's
+InServiceList(e) == "service" \in e.maps \/ ("service" \in e.decl /\ "api" \in e.maps)
+\* hypothetical (vacuity guard): the `found` flag of the method level loop is not reset per error - once a method
+\* level error took its response from the service's list, later method level errors never look at the API
+Sticky(i) == /\ "prepare.found_flag_not_reset" \in Deviations
+             /\ \E j \in 1..(i - 1) : "method" \in table[j].decl /\ "method" \notin table[j].maps /\ InServiceList(table[j])
+\* which loop of HTTPEndpointExpr.Prepare handles error i: the endpoint's own responses, the method's errors, the service's errors
+Loop(i) == IF "method" \in table[i].maps THEN "own" ELSE IF "method" \in table[i].decl THEN "method" ELSE "service"
+\* where error i takes its response from: the method's / service's HTTP expression, the API's through the copy in the
+\* service's list, the API's directly ("none": no response, the default encoder answers)
+Source(i) == LET e == table[i] IN
+  IF "method" \in e.maps THEN "method"
+  ELSE IF e.decl \cap {"method", "service"} = {} THEN "none"
+  ELSE IF "service" \in e.maps THEN "service"
+  ELSE IF InServiceList(e) THEN "copied"
+  ELSE IF "api" \in e.maps /\ ~(Loop(i) = "method" /\ Sticky(i)) THEN "api"
+  ELSE "none"
+Resolved(i) == Source(i) # "none"
+SourceLevel(i) == IF Source(i) \in {"copied", "api"} THEN "api" ELSE Source(i)
+WireStatus(i) == IF SourceLevel(i) = Innermost(table[i].maps) THEN table[i].status ELSE Decoy
+\* the path of error i through the resolution (strata for sampling; part of the emitted case)
+Path(i) == <<IF "method" \in table[i].decl THEN "M" ELSE IF "service" \in table[i].decl THEN "S" ELSE "A", Source(i)>>
+
+Grow == space = "triple"
+Complete == IF Grow THEN Len(table) = 3 ELSE Len(table) >= 1
 
 Init ==
-  /\ table \in UNION {{<<a>> : a \in DeclSpace("e1")},
-                      {<<a, b>> : a \in DeclSpace("e1"), b \in {x \in DeclSpace("e2") : x.level = "method"}},
-                      {<<a, b, c>> : a \in {x \in DeclSpace("e1") : x.level = "method" /\ x.type = "result" /\ x.flags = NoFlags},
-                                     b \in {x \in DeclSpace("e2") : x.level = "service" /\ x.flags = NoFlags},
-                                     c \in {x \in DeclSpace("e3") : x.level = "api" /\ x.type = "result" /\ x.flags = NoFlags}}}
-  /\ outcome \in {o \in Outcomes : o.kind \in {"declared", "wrapped"} => Declared(o.name)}
-  /\ (outcome.kind = "wrapped" => Entry(outcome.name).type = "result")     \* only service errors are wrapped (fmt.Errorf("%w", MakeE1(...)))
-  /\ pc = "server" /\ status = 0 /\ goaerr = "none" /\ bodyname = "none" /\ bodyflags = NoFlags /\ writes = 0
+  /\ \/ "base" \in Spaces /\ space = "base" /\ table \in BaseTables
+     \/ "place1" \in Spaces /\ space = "place1" /\ table \in Place1Tables
+     \/ "pair" \in Spaces /\ space = "pair" /\ table \in PairTables
+     \/ "pairq" \in Spaces /\ space = "pairq" /\ table \in PairQTables
+     \/ "triple" \in Spaces /\ space = "triple" /\ table = <<>>
+  /\ callno = 0 /\ outcome = NoOutcome /\ pc = "design"
+  /\ status = 0 /\ goaerr = "none" /\ bodyname = "none" /\ bodyflags = NoFlags /\ writes = 0
   /\ cname = "none" /\ cflags = NoFlags /\ ckind = "none"
+
+\* one more Error(...) (with its Response(...) lines) in the design
+Declare ==
+  /\ pc = "design" /\ Grow /\ Len(table) < 3
+  /\ \E e \in Grown(Names[Len(table) + 1]) : table' = Append(table, e)
+  /\ UNCHANGED <<space, callno, outcome, pc, status, goaerr, bodyname, bodyflags, writes, cname, cflags, ckind>>
+
+\* the next request: every declared error in turn, then one undeclared outcome
+Call ==
+  /\ pc \in {"design", "done"} /\ Complete /\ callno <= Len(table)
+  /\ callno' = callno + 1
+  /\ outcome' \in IF callno < Len(table) THEN Returning(table[callno + 1])
+                  ELSE IF space \in {"base", "triple"} THEN Undeclared ELSE UndeclaredFew
+  /\ pc' = "server" /\ status' = 0 /\ goaerr' = "none" /\ bodyname' = "none" /\ bodyflags' = NoFlags /\ writes' = 0
+  /\ cname' = "none" /\ cflags' = NoFlags /\ ckind' = "none"
+  /\ UNCHANGED <<space, table>>
 
 \* server side: the generated error encoder, else the default encoder
 ServerEncode ==
   /\ pc = "server"
   /\ writes' = writes + 1
-  /\ CASE outcome.kind \in {"declared", "wrapped"} ->
-            LET e == Entry(outcome.name) IN
-            /\ status' = e.status
+  /\ CASE outcome.kind \in {"declared", "wrapped"} /\ Resolved(Idx(outcome.name)) ->
+            LET e == Entry_(outcome.name) IN
+            /\ status' = WireStatus(Idx(outcome.name))
             /\ goaerr' = IF "server.no_goa_error_header" \in Deviations THEN "none" ELSE e.name      \* hypothetical (vacuity guard)
             /\ bodyname' = e.name /\ bodyflags' = e.flags
+       [] outcome.kind \in {"declared", "wrapped"} /\ ~Resolved(Idx(outcome.name)) ->      \* only under a deviation: nothing knows the error
+            LET e == Entry_(outcome.name) IN
+            IF e.type = "result"
+            THEN /\ status' = DefaultStatus(e.name, e.flags) /\ goaerr' = "none" /\ bodyname' = e.name /\ bodyflags' = e.flags
+            ELSE /\ status' = 500 /\ goaerr' = "none" /\ bodyname' = "fault" /\ bodyflags' = [t |-> FALSE, tmp |-> FALSE, f |-> TRUE]
        [] outcome.kind \in {"service", "joined"} ->
             /\ status' = DefaultStatus(outcome.name, outcome.flags) /\ goaerr' = "none"
             /\ bodyname' = outcome.name /\ bodyflags' = outcome.flags
@@ -80,12 +204,12 @@ ServerEncode ==
                              [] outcome.name = "bad_param" -> "invalid_field_type"
                              [] OTHER -> "unsupported_media_type"
   /\ pc' = "client"
-  /\ UNCHANGED <<table, outcome, cname, cflags, ckind>>
+  /\ UNCHANGED <<space, table, callno, outcome, cname, cflags, ckind>>
 
 \* client side: switch on the status, then on the goa-error header when several errors share the status
 ClientDecode ==
   /\ pc = "client"
-  /\ LET cands == {i \in 1..Len(table) : table[i].status = status} IN
+  /\ LET cands == {i \in 1..Len(table) : Resolved(i) /\ WireStatus(i) = status} IN
      IF cands = {} \/ (goaerr = "none") \/ ~(\E i \in cands : table[i].name = goaerr)
      THEN IF cands # {} /\ Cardinality(cands) = 1 /\ goaerr = "none" /\ "client.single_error_ignores_header" \in Deviations
           THEN LET e == table[CHOOSE i \in cands : TRUE] IN cname' = e.name /\ cflags' = bodyflags /\ ckind' = "declared"
@@ -93,20 +217,31 @@ ClientDecode ==
      ELSE LET e == table[CHOOSE i \in cands : table[i].name = goaerr] IN
           cname' = e.name /\ cflags' = bodyflags /\ ckind' = "declared"
   /\ pc' = "done"
-  /\ UNCHANGED <<table, outcome, status, goaerr, bodyname, bodyflags, writes>>
-Next == ServerEncode \/ ClientDecode
+  /\ UNCHANGED <<space, table, callno, outcome, status, goaerr, bodyname, bodyflags, writes>>
+Next == Declare \/ Call \/ ServerEncode \/ ClientDecode
 Spec == Init /\ [][Next]_vars
 
 ---------------------------------------------------------------------------
+\* the tables are designs goa accepts, every error of a table is an error of the method with a response, names are distinct
+WellFormed == \A i \in 1..Len(table) :
+   /\ Accepted(table[i].decl, table[i].maps) /\ OfMethod(table[i].decl, table[i].maps) /\ table[i].maps # {}
+   /\ table[i].name = Names[i]
+PairQInPair == space = "pairq" => /\ table \in PairTables /\ Len(PlacementSeq) = Cardinality(Placements)
+                                   /\ {PClass(p.decl, p.maps) : p \in Placements} = {ClassSeq[k] : k \in 1..Len(ClassSeq)}
+\* without deviations every error takes the path its placement says (the strata of the sampling are real)
+PathsAsPlaced == Deviations = {} => \A i \in 1..Len(table) : Path(i) = PClass(table[i].decl, table[i].maps)
 \* C05
 DeclaredRoundTrip == pc = "done" /\ outcome.kind \in {"declared", "wrapped"} =>
-   /\ status = Entry(outcome.name).status /\ goaerr = outcome.name
-   /\ ckind = "declared" /\ cname = outcome.name /\ cflags = Entry(outcome.name).flags
+   /\ status = Entry_(outcome.name).status /\ goaerr = outcome.name
+   /\ ckind = "declared" /\ cname = outcome.name /\ cflags = Entry_(outcome.name).flags
 DefaultMapping == pc = "done" =>
    /\ (outcome.kind = "plain" => status = 500 /\ bodyflags.f /\ bodyname = "fault")
    /\ (outcome.kind \in {"service", "joined"} => status = DefaultStatus(outcome.name, outcome.flags) /\ bodyname = outcome.name /\ bodyflags = outcome.flags)
    /\ (outcome.kind = "decode" => status \in {400, 415} /\ bodyname \in {"missing_payload", "decode_payload", "invalid_field_type", "unsupported_media_type"})
 ExactlyOneResponse == pc \in {"client", "done"} => writes = 1
+\* every declared error of the table is returned by the service (and so observed at the client) before the undeclared call
+EveryDeclaredReturned == pc = "done" /\ callno = Len(table) + 1 => outcome.kind \notin {"declared", "wrapped"}
+CallsInOrder == pc \in {"server", "client", "done"} /\ callno <= Len(table) => outcome.name = table[callno].name
 \* (what the client hands back for an undeclared error is not part of the property: when its status
 \* coincides with a declared error's status the generated client decodes the body as that error type)
 =============================================================================
